@@ -44,7 +44,7 @@ LEAN_TARGETS = ["RV.C13.Props", "RV.C13.Audit"]
 AUDIT = "RV/C13/Audit.lean"
 DRIVER = "drv_c13"
 CASES = {"quick": 800, "thorough": 16000, "search": 6000}
-RULE = ("random datasets (0-3 named graphs incl. blank-node-named, empty and registered-empty ones, ~25 terms incl. "
+RULE = ("random datasets (0-3 named graphs incl. blank-node-named, empty and registered-empty ones, ~30 terms incl. unbound namespaces, "
         "blank nodes, RDF lists, falsy literals) as Dataset (default_union on/off), ConjunctiveGraph, plain Graph or a "
         "Graph view; 18-30 read-only calls per case drawn from all serializer formats x option sets, ~50 SPARQL "
         "templates, property paths, compare functions, membership/iteration/slicing/graph-listing calls; snapshot of "
@@ -67,12 +67,14 @@ TERM = {
     4: BNode("b1"), 5: BNode("b2"), 6: BNode("gb"),       # 6 is also the name of graph 3
     7: BNode("l1"), 8: BNode("l2"), 9: BNode("l3"),       # list cells
     10: URIRef(EX + "p"), 11: URIRef(EX + "q"), 12: RDF.type, 13: RDF.first, 14: RDF.rest,
+    15: URIRef("http://o/ns#r"),                           # a predicate whose namespace has no prefix: serializers bind one
+    29: URIRef("http://t/ns#T"),                           # a class in another unbound namespace
     20: Literal(""), 21: Literal(0), 22: Literal(False), 23: Literal("x", lang="en"), 24: Literal("1"),
     25: Literal("2024-02-03", datatype=XSD.date), 26: RDF.nil, 27: Literal("a\"b\nc"), 28: URIRef(EX + "C"),
 }
 SUBJ = [1, 2, 3, 4, 5, 6]
-PRED = [10, 11, 12]
-OBJ = [1, 2, 3, 4, 5, 6, 20, 21, 22, 23, 24, 25, 27, 28]
+PRED = [10, 11, 12, 15]
+OBJ = [1, 2, 3, 4, 5, 6, 20, 21, 22, 23, 24, 25, 27, 28, 29]
 IRIS = [1, 2, 3, 28]
 TERM_REV = {v: k for k, v in TERM.items()}
 # graph ids: 0 = the default graph (whatever identifier the configuration gives it)
@@ -93,14 +95,18 @@ SER_OPTS = {
     "native": {"use_native_types": True, "use_rdf_type": True}, "spacious": {"spacious": True},
     "patch_add": {"operation": "add"}, "patch_remove": {"operation": "remove"},
     "patch_hdr": {"operation": "add", "header_id": "urn:h:1", "header_prev": "urn:h:0"},
-    "maxdepth": {"max_depth": 1},
+    "maxdepth": {"max_depth": 1}, "maxdepth5": {"max_depth": 5}, "xmlbase": {"xml_base": EX},
+    "canon": {"canon": True}, "canon_base": {"canon": True, "base": EX},
+    "sortkeys": {"sort_keys": False, "indent": None}, "rdftype": {"use_rdf_type": True},
+    "nativeonly": {"use_native_types": True}, "patch_target": {"_target": True},
 }
 OPTS_FOR = {
-    "json-ld": ["plain", "base", "compact", "ctx", "native", "bytes", "stream"],
-    "patch": ["patch_add", "patch_remove", "patch_hdr"],
-    "turtle": ["plain", "base", "spacious", "bytes", "stream"], "longturtle": ["plain", "base"],
-    "trig": ["plain", "base", "spacious", "stream"], "n3": ["plain", "base"],
-    "pretty-xml": ["plain", "base", "maxdepth"], "xml": ["plain", "base", "bytes"],
+    "json-ld": ["plain", "base", "compact", "ctx", "native", "bytes", "stream", "sortkeys", "rdftype", "nativeonly"],
+    "patch": ["patch_add", "patch_remove", "patch_hdr", "patch_target", "patch_target"],
+    "turtle": ["plain", "base", "spacious", "bytes", "stream"],
+    "longturtle": ["plain", "base", "canon", "canon", "canon_base", "spacious"],
+    "trig": ["plain", "base", "spacious", "stream"], "n3": ["plain", "base", "spacious"],
+    "pretty-xml": ["plain", "base", "maxdepth", "maxdepth5", "xmlbase"], "xml": ["plain", "base", "bytes", "xmlbase"],
 }
 
 # ------------------------------------------------------------------ SPARQL templates
@@ -257,7 +263,7 @@ def gen_dataset(rng, cfg):
         g = rng.choice(pop)
         q = [rng.choice(SUBJ), rng.choice(PRED), rng.choice(OBJ if rng.random() < 0.8 else [20, 21, 22]), g]
         if q[1] == 12:
-            q[2] = 28 if rng.random() < 0.7 else q[2]
+            q[2] = rng.choice([28, 28, 29]) if rng.random() < 0.7 else q[2]
         if rng.random() < 0.15 and quads:                   # same triple in a second graph
             q = quads[rng.randrange(len(quads))][:3] + [g]
         if q not in quads:
@@ -355,7 +361,7 @@ def gen_read(rng, cfg, quads, kind=None):
 def gen_case(rng, tier, i):
     cfg = rng.choice(["ds", "ds", "ds", "dsu", "dsu", "cg", "cgd", "g", "view"])
     quads, empty = gen_dataset(rng, cfg)
-    case = {"cfg": cfg, "quads": quads, "empty": empty, "twice": rng.random() < 0.6}
+    case = {"cfg": cfg, "quads": quads, "empty": empty, "twice": rng.random() < 0.6, "nobind": rng.random() < 0.4}
     if cfg == "view":
         gs = sorted({q[3] for q in quads} | set(empty)) or [0]
         case["view"] = rng.choice(gs + [9])
@@ -396,7 +402,8 @@ def build(case):
         top = ConjunctiveGraph(identifier=DATASET_DEFAULT_GRAPH_ID)
     else:
         top = Graph(identifier=PLAIN_ID)
-    top.bind("e", EX)
+    if not case.get("nobind"):
+        top.bind("e", EX)
     store = top.store
     for s, p, o, g in case["quads"]:
         if cfg == "g":
@@ -497,6 +504,17 @@ class Text:
         self.fmt, self.text, self.quadfmt = fmt, text, quadfmt
 
 
+_SIDE_VIOL = []
+
+
+def _patch_target(case):
+    """the case's dataset without its first quad, plus one quad it does not hold"""
+    tgt = Dataset()
+    for s_, p_, o_, g_ in case["quads"][1:] + [[2, 10, 3, 1], [3, 15, 20, 0]]:
+        tgt.store.add((TERM[s_], TERM[p_], TERM[o_]), Graph(store=tgt.store, identifier=_gid("ds", g_)))
+    return tgt
+
+
 def _graph_arg(case, top, target, g):
     """-1 = the read target itself, else a same-store view of graph g"""
     if g == -1:
@@ -523,12 +541,19 @@ def do_read(case, top, target, rd):
         _, fmt, optname = rd
         kw = dict(SER_OPTS[optname])
         stream = kw.pop("_stream", False)
+        tgt = None
+        if kw.pop("_target", False):       # PatchSerializer._diff: a second dataset to diff against (also only read)
+            tgt = _patch_target(case)
+            kw["target"] = tgt
+            tgt_before = set(tgt.quads((None, None, None, None)))
         if stream:
             buf = io.BytesIO()
             target.serialize(destination=buf, format=fmt, **kw)
             out = buf.getvalue()
         else:
             out = target.serialize(format=fmt, **kw)
+        if tgt is not None and set(tgt.quads((None, None, None, None))) != tgt_before:
+            _SIDE_VIOL.append("mutated:ser/patch-target: the target dataset handed to the patch serializer changed")
         if isinstance(out, bytes):
             out = out.decode("utf-8")
         if fmt in LINE_FORMATS:
@@ -602,7 +627,8 @@ def do_read(case, top, target, rd):
         if f == "eq":
             return [ga == gb, hash(ga) == hash(gb), ga < gb if a != b else False]
         if f == "skolemize":
-            return _bag(set(ga.skolemize())) + _bag(set(ga.de_skolemize()))
+            return (_bag(set(ga.skolemize())) + _bag(set(ga.de_skolemize())) + _bag(set(ga.skolemize(bnode=TERM[4])))
+                    + _bag(set(ga.skolemize(new_graph=None, authority="http://sk/", basepath="/id/"))))
         op = f[-1]
         r = ga + gb if op == "+" else ga - gb if op == "-" else ga * gb if op == "*" else ga ^ gb
         return _bag(set(r))
@@ -792,6 +818,8 @@ def api_name(rd):
 
 
 _PREPARED = {}
+# reads the Lean model allows to add prefix bindings (ReadOp.mayBind; theorem namespaces_may_grow)
+MODEL_MAY_BIND = {"ser/turtle", "ser/longturtle", "ser/n3", "ser/trig", "ser/xml", "ser/pretty-xml", "basic/qname"}
 
 
 _DOC_URLS = {}
@@ -829,8 +857,19 @@ def _run_impl(case):
     def bump(k, n=1):
         stats[k] = stats.get(k, 0) + n
 
+    ns_before = set(top.namespaces())
+
     def check_state(k, rd, phase):
-        nonlocal before
+        nonlocal before, ns_before
+        ns_now = set(top.namespaces())
+        if ns_now != ns_before:      # namespace bindings are outside the statement: observed, never a violation
+            kind = "ns_grew" if ns_now > ns_before else "ns_changed"
+            bump(f"{kind}:{api_name(rd)}")
+            if api_name(rd) not in MODEL_MAY_BIND:
+                bump(f"{kind}_unmodelled:{api_name(rd)}")
+            ns_before = ns_now
+        while _SIDE_VIOL:
+            viol.append(_SIDE_VIOL.pop())
         now = snapshot(case, top)
         if now != before:
             bq, aq = set(before[0]), set(now[0])
@@ -910,26 +949,58 @@ def _from_clauses(text):
     return [("n:" if named else "f:") + rev[iri] for named, iri in re.findall(r"FROM (NAMED )?(<[^>]*>)", text)]
 
 
+def _tok_rev():
+    rev = {v.n3(): GTOK[k] for k, v in GN.items()}
+    rev.update(DOC_TOK)
+    return rev
+
+
+def _model_ser(rd, multi):
+    fmt, opt = rd[1], SER_OPTS[rd[2]]
+    if fmt in ("nt", "nt11"):
+        return "read flat"
+    if fmt in ("turtle", "n3"):
+        return "read turtle"
+    if fmt == "longturtle":
+        return f"read longturtle {1 if opt.get('canon') else 0}"
+    if fmt == "xml":
+        return "read xml"
+    if fmt == "pretty-xml":
+        return f"read prettyxml {opt.get('max_depth', 3)}"
+    if not multi:
+        return "read turtle" if fmt == "trig" else "read pure"   # quad formats refuse / degrade on a plain Graph
+    if fmt == "json-ld":
+        return "read jsonld"
+    if fmt == "trig":
+        return "read trig"
+    if fmt == "patch":
+        return "read patchtarget" if opt.get("_target") else "read patch"
+    return "read ctxs"               # nquads, trix, hext
+
+
 def model_read(case, rd):
     """the model-level read operation (state-touching skeleton) an API call maps to"""
     cfg = case["cfg"]
     multi = cfg not in ("g", "view")
     api = rd[0]
+    if api == "ser":
+        return _model_ser(rd, multi)
+    if api == "cmp" and rd[1] == "skolemize":
+        return "read skolemize"
+    if api == "basic" and rd[1] == "qname":
+        return "read qname 15"
+    if api == "nav" and rd[1] == "cbd":
+        return f"read cbd {rd[2]}"
     if not multi:
         return "read pure"            # a plain Graph / a Graph view: iteration only
-    if api == "ser":
-        fmt = rd[1]
-        if fmt == "json-ld":
-            return "read jsonld"
-        if fmt == "trig":
-            return "read trig"
-        if fmt in ("nquads", "trix", "hext"):
-            return "read ctxs"
-        return "read pure"           # triple formats iterate the default view; patch walks quads()
     if api == "q":
         clauses = _from_clauses(rd[1])
         gvar = 1 if "GRAPH ?g" in rd[1] else 0
-        return f"read query {gvar} {','.join(clauses) or '-'} {0 if rd[2] & 1 else 1}"
+        rev = _tok_rev()
+        consts = [rev[m] for m in re.findall(r"GRAPH (<[^>]*>)", rd[1])]
+        kind = {"SELECT": "s", "ASK": "a", "CONSTRUCT": "c", "DESCRIBE": "d"}[rd[1].split()[0]]
+        return (f"read query {gvar} {','.join(clauses) or '-'} {0 if rd[2] & 1 else 1} {kind} "
+                f"{','.join(consts) or '-'}")
     if api == "ctx":
         f, g, how = rd[1], GTOK[rd[5]], rd[6]
         if f in ("graphs", "contexts", "graphs_t", "get_graph"):
